@@ -712,6 +712,14 @@ Fixpoint tree_of_obs (o : obs) : option tree :=
 Definition obs_of_oelt (o : option elt) : obs :=
   match o with Some e => L [I (fst e); I (snd e)] | None => N end.
 
+(* what one step of an iterator yields: the key, the (key, value) item, or the value; None when
+   the generator is exhausted *)
+Definition obs_of_iter (mode : Z) (o : option elt) : obs :=
+  match o with
+  | None => N
+  | Some e => if mode =? 0 then I (fst e) else if mode =? 1 then L [I (fst e); I (snd e)] else I (snd e)
+  end.
+
 Definition obs_err {A} (r : res A) : obs :=
   match r with Ok _ => N | Lib e => E e | Internal e => E e end.
 
@@ -817,6 +825,17 @@ Definition step (w : world) (op : obs) : world * obs :=
         end)
   | L [I 16; I ti] =>
       with_tree w ti (fun i b => (w, L [obs_of_tree (b_root b); ob (wf_b (b_t b) (b_root b))]))
+  (* an open iterator (iter(tree), keys(), items(), values(), iter(set)): BTree.__iter__ is a
+     generator around a cursor registered with the tree (`with self.cursor() as cursor`), so it
+     is parked by every mutation between two steps; one step = cursor.next() *)
+  | L [I 18; I ti; I kind] =>
+      with_tree w ti (fun i b => (mkW (w_trees w) (w_cursors w ++ [(i, new_cursor)]), N))
+  | L [I 19; I ci; I mode] =>
+      with_cursor w ci (fun j ti b c =>
+        match cursor_next (b_root b) c with
+        | Ok (c', o) => (mkW (w_trees w) (set_nth j (ti, c') (w_cursors w)), obs_of_iter mode o)
+        | r => (w, obs_err r)
+        end)
   | L [I 17; I ti] =>
       with_tree w ti (fun i b =>
         match iter_loop (S (Z.to_nat (b_size b))) (b_root b) new_cursor [] with
